@@ -13,7 +13,7 @@ from vmstate import diff
 HYP_HEADER = dc.HEADER + "From Hera.Proofs Require Import C11_Hyps.\n"
 
 
-def make_sessions(rng, n, kinds_of, sizes=(3, 8, 15), finish_of=lambda k: False):
+def make_sessions(rng, n, kinds_of, sizes=(3, 8, 15), finish_of=lambda k: False, inner_calls=0.0):
     out = []
     tries = 0
     while len(out) < n and tries < 5 * n:
@@ -26,8 +26,24 @@ def make_sessions(rng, n, kinds_of, sizes=(3, 8, 15), finish_of=lambda k: False)
         info = dc.Info(got[0])
         k = len(out)
         cmds = dc.gen_session(rng, info, opts, kinds_of(k), rng.choice(sizes), finish=finish_of(k))
+        if rng.random() < inner_calls:
+            cmds = inner_call_prefix(rng, info) + cmds
         out.append({"text": text, "opts": opts, "cmds": cmds, "info": info})
     return out
+
+
+def inner_call_prefix(rng, info):
+    """Commands that stop on a CALL inside a function (recursive calls included) and step over it:
+    `break <its line>`, `continue`, `clear *`, `next`, `next`.  [] if the program has no such CALL."""
+    code = info.program.code
+    halt = next((i for i, o in enumerate(code) if o.original.__class__.__name__ == "HALT"), len(code))
+    lines = sorted({o.loc.line for i, o in enumerate(code) if i > halt and o.original.__class__.__name__ == "CALL"})
+    if not lines:
+        return []
+    line = rng.choice(lines)
+    b = info.resolve(str(line))
+    return [("break %d" % line, "(CBreak %d)" % b), ("continue", "CContinue"), ("clear *", "CClearAll"),
+            ("next", "(CNext 1)"), ("next", "(CNext 1)")]
 
 
 def session_json(s):
@@ -88,6 +104,8 @@ def run_oracle(s, budget_ops=200000):
         a = dc.snap_debugger(rs.shell.debugger)
         b = tr.snapshot()
         b.pop("swarning_count", None)
+        a.pop("calls", None)          # internal bookkeeping: what counts here is where the machine stopped
+        b.pop("calls", None)
         d = diff(a, b)
         if d:
             return "after command %d (%s): debugger vs source-level trace %s" % (i, line, d), stats
